@@ -23,6 +23,7 @@ without=$(go test -mod=mod -vet=off -count=1 -run "$demo" ./test/ 2>&1 | tail -1
 echo "suite ok-packages=$suite failures=$suitefail | demo with change: $with | demo without: $without"
 res="{}"
 cd "$VERIF_ROOT"
+mkdir -p "$VERIF_ROOT/.work"; exec 7>"$VERIF_ROOT/.work/repo.lock"; flock -x 7; export VERIF_REPO_LOCK_HELD=1
 git -C /repo apply "$out/patch.diff" || { echo "PATCH DOES NOT APPLY TO /repo"; exit 2; }
 caught=""
 for p in "$@"; do
@@ -32,6 +33,7 @@ for p in "$@"; do
   [ $ec -eq 1 ] && caught="$caught $p"
 done
 git -C /repo checkout -q -- .
+flock -u 7; unset VERIF_REPO_LOCK_HELD
 echo "caught by:${caught:- NONE}"
 cat > "$out/meta.json" <<EOT
 {"seed": "$id", "breaks": "$1", "demo": "$demo", "suite_ok_packages_with_change": $suite, "suite_failures_with_change": $suitefail,
